@@ -1279,8 +1279,8 @@ func (c *Client) AckResult(res ...*OpResult) error {
 		toACK[r.OperationID] = false
 	}
 
-	c.qs.resultMu.RLock()
-	defer c.qs.resultMu.RUnlock()
+	c.qs.resultMu.Lock()
+	defer c.qs.resultMu.Unlock()
 	nrq := []*OpResult{}
 	for _, r := range c.qs.resultq {
 		_, ok := toACK[r.OperationID]
